@@ -373,10 +373,97 @@ def _role_of(f, v):
     return '%s#%d' % ((v.get('t') or '').replace('riddle::ast::', ''), [i for i, n in enumerate(same) if n is v][0] if any(n is v for n in same) else 0)
 
 
+def r5(ctx, fs):
+    rid = 'C18.R5'
+    ctx.rule(rid, 'the lookup chains are well-founded: the core is its own enclosing scope and its own enclosing environment (core::core), so every virtual lookup of scope / env that forwards the '
+                  'request to the enclosing scope / environment on a miss (scp.m(..), ctx->m(..)) is overridden in core by a function from which - over the calls made on the core itself - no '
+                  'forwarding lookup is reached (a miss at the root must end, not recurse for ever)', floor=8)
+    ctor = [f for f in fs.defined() if f.name == 'ratio::core::core']
+    if not ctor:
+        raise AnalysisBroken('ratio::core::core not found')
+    self_rooted = {}
+    for io in ctor[0].d.get('inits') or ():
+        if io.get('base') in ('ratio::scope', 'ratio::env') and isinstance(io.get('init'), dict):
+            self_rooted[io['base']] = any(x.get('k') == 'CXXThisExpr' for x in walk(io['init']))
+    if self_rooted != {'ratio::scope': True, 'ratio::env': True}:
+        raise AnalysisBroken('ratio::core::core: the core is no longer constructed as its own enclosing scope / environment (%s): the root of the lookup chains must be identified again' % self_rooted)
+    LINK = ('ratio::scope::scp', 'ratio::env::ctx')
+
+    # accessors of the links (scope::get_scope, env::get_ctx ..): one `return <link>;`
+    accessors = set()
+    for f in fs.defined():
+        if f.get('class') in ('ratio::scope', 'ratio::env') and f.body is not None and len(f.body.get('c') or ()) == 1 and f.body['c'][0].get('k') == 'ReturnStmt' and f.body['c'][0].get('c'):
+            e = f.body['c'][0]['c'][0]
+            while e.get('k') in ('ImplicitCastExpr', 'ParenExpr', 'CXXConstructExpr', 'MaterializeTemporaryExpr') and len(e.get('c') or ()) == 1:
+                e = e['c'][0]
+            if e.get('k') == 'MemberExpr' and e.get('member') in LINK:
+                accessors.add(f.id)
+
+    def on_link(call):
+        obj = call['c'][0]['c'][0] if call.get('c') and call['c'][0].get('k') == 'MemberExpr' and call['c'][0].get('c') else None
+        return obj is not None and any((x.get('k') == 'MemberExpr' and x.get('member') in LINK) or (x.get('k') == 'CXXMemberCallExpr' and x.get('callee') in accessors and on_self(x)) for x in walk(obj))
+
+    def on_self(call):
+        obj = call['c'][0]['c'][0] if call.get('c') and call['c'][0].get('k') == 'MemberExpr' and call['c'][0].get('c') else None
+        while obj is not None and obj.get('k') in ('ImplicitCastExpr', 'ParenExpr', 'UnaryOperator') and obj.get('c'):
+            obj = obj['c'][0]
+        return obj is not None and obj.get('k') == 'CXXThisExpr'
+
+    def meth(fid_name):
+        return fid_name.rsplit('::', 1)[-1]
+    forwarders = {}
+    for f in fs.defined():
+        if f.get('class') not in ('ratio::scope', 'ratio::env'):
+            continue
+        for n in f.nodes():
+            if n.get('k') == 'CXXMemberCallExpr' and n.get('callee') and meth(n.get('callee_name') or '') == meth(f.name) and on_link(n):
+                forwarders[f.id] = f
+    if not forwarders:
+        raise AnalysisBroken('no lookup of ratio::scope / ratio::env forwards to the enclosing scope / environment: the chain is not where this rule looks for it')
+    for fid, fw in sorted(forwarders.items()):
+        ov = [o for o in fs.all_overriders(fid) if o.startswith('ratio::core::')]
+        root = fs.fns.get(ov[0]) if ov else None
+        reached = None
+        n_fns = 0
+        if root is not None and root.body is not None:
+            seen, st = set(), [root]
+            while st and reached is None:
+                g = st.pop()
+                if g.id in seen:
+                    continue
+                seen.add(g.id)
+                n_fns += 1
+                if g.id in forwarders:
+                    reached = g
+                    break
+                for n in g.nodes():
+                    if n.get('k') != 'CXXMemberCallExpr' or not n.get('callee') or not (on_self(n) or on_link(n)):
+                        continue
+                    tgt = n['callee']
+                    if on_link(n) and meth(n.get('callee_name') or '') == meth(root.name):
+                        reached = fw          # the same lookup asked of the enclosing scope / environment - the core itself
+                        break
+                    if n.get('virtual') or on_link(n):
+                        # the object is the core: the call lands in the core's own override when there is one
+                        o2 = [o for o in fs.all_overriders(tgt) if o.startswith('ratio::core::')]
+                        tgt = o2[0] if o2 else tgt
+                    h = fs.fns.get(tgt)
+                    if h is not None and h.body is not None:
+                        st.append(h)
+        ctx.instance(rid, [fid, 'root'], {'forwarding_lookup': fid, 'root_override': root.id if root is not None else None, 'functions_followed_on_the_core': n_fns,
+                                          'forwarder_reached': reached.id if reached is not None else None})
+        if root is None or root.body is None:
+            ctx.finding(rid, fid, 'root', '%s forwards a miss to the enclosing %s, and the core - which encloses itself - does not override it: a miss never ends' % (fw.name, 'scope' if fw.get('class') == 'ratio::scope' else 'environment'), loc=fw.loc)
+        elif reached is not None:
+            ctx.finding(rid, fid, 'root', '%s is the root of the lookup chain (the core encloses itself) and reaches %s, which forwards a miss to the enclosing %s - the core again: a failed lookup recurses without bound '
+                        'instead of ending with an error' % (root.name, reached.name, 'scope' if reached.get('class') == 'ratio::scope' else 'environment'), loc=root.loc)
+
+
 def run(ctx):
     fs = ctx.facts('F')
     _seen.clear()
     r1(ctx, fs)
+    r5(ctx, fs)
     r2b(ctx, fs)
     r2(ctx, fs)
     r3(ctx, fs)
